@@ -285,7 +285,7 @@ class UndirectedMultigraph : private LabeledUndirectedGraph<EdgeMultiplicity> {
             for (auto &j : getOutNeighbours(i)) {
                 const auto &multiplicity = getEdgeLabel(i, j);
                 adjacencyMatrix[i][j] += i == j && countSelfLoopsTwice
-                                             ? 2 * multiplicity
+                                             ? 2 * (size_t)multiplicity
                                              : multiplicity;
             }
         return adjacencyMatrix;
@@ -302,7 +302,7 @@ class UndirectedMultigraph : private LabeledUndirectedGraph<EdgeMultiplicity> {
         for (auto &neighbour : getNeighbours(vertex)) {
             multiplicity = getEdgeMultiplicity(vertex, neighbour);
             degree += countSelfLoopsTwice && vertex == neighbour
-                          ? 2 * multiplicity
+                          ? 2 * (size_t)multiplicity
                           : multiplicity;
         }
         return degree;
